@@ -343,6 +343,99 @@ def big_states(rng, m, nworld):
   return np.array(qp), np.array(qv)
 
 
+def arms_xml(narm, jac):
+  """narm coupled 4-link arms with joint frictionloss and one motor per joint (nv = 4*narm): with nv > 32 the Newton
+  solver takes the blocked-Cholesky path and its stable-state fast path."""
+  def arm(i):
+    return (
+      f'<body pos="0 {0.5 * i} 1"><joint name="a{i}j0" type="hinge" axis="0 1 0" frictionloss="1.5"/><geom type="capsule" size="0.02" fromto="0 0 0 0.2 0 0" mass="1"/>'
+      f'<body pos="0.2 0 0"><joint name="a{i}j1" type="hinge" axis="0 1 0" frictionloss="0.8"/><geom type="capsule" size="0.02" fromto="0 0 0 0.2 0 0" mass="0.5"/>'
+      f'<body pos="0.2 0 0"><joint name="a{i}j2" type="hinge" axis="1 0 0" frictionloss="2.0"/><geom type="capsule" size="0.02" fromto="0 0 0 0.15 0 0" mass="0.3"/>'
+      f'<body pos="0.15 0 0"><joint name="a{i}j3" type="hinge" axis="0 1 0" frictionloss="0.5"/><geom type="capsule" size="0.02" fromto="0 0 0 0.1 0 0" mass="0.2"/>'
+      "</body></body></body></body>"
+    )
+
+  acts = "".join(f'<motor joint="a{i}j{j}"/>' for i in range(narm) for j in range(4))
+  return (
+    f'<mujoco><option timestep="0.005" solver="Newton" cone="pyramidal" jacobian="{jac}" tolerance="1e-10" iterations="100" ls_iterations="50"/>'
+    '<default><joint armature="0.01" damping="0.05"/><geom contype="0" conaffinity="0"/></default>'
+    f'<worldbody>{"".join(arm(i) for i in range(narm))}</worldbody><actuator>{acts}</actuator></mujoco>'
+  )
+
+
+def run_sequence(seq, upto=None, on_step=None):
+  """Warm-started sequence of solves on the SAME mjw Data: MuJoCo generates a trajectory under bang-bang motor torques
+  (sign reversal every `period` steps, so friction rows flip LINEARNEG <-> LINEARPOS between consecutive solves); at every
+  step the identical (qpos, qvel, ctrl, qacc_warmstart) of each world is given to mjw.forward.  on_step(k, m, dl, mm, dd)."""
+  import mujoco
+  import warp as wp
+
+  import mujoco_warp as mjw
+
+  xml = arms_xml(seq["narm"], seq["jacobian"])
+  m = mujoco.MjModel.from_xml_string(xml)
+  nworld = seq["nworld"]
+  rng = np.random.default_rng(seq["seed"])
+  amps = [rng.uniform(1.0, 4.0, m.nu) for _ in range(nworld)]
+  dl = [mujoco.MjData(m) for _ in range(nworld)]
+  for w, d in enumerate(dl):
+    d.qpos[:] = rng.normal(0, 0.2, m.nq) * (w > 0)
+  mm = mjw.put_model(m)
+  dd = mjw.put_data(m, dl[0], nworld=nworld, njmax=2 * m.nv + 16, naconmax=16)
+  f32 = lambda rows: wp.array(np.array(rows, dtype=np.float32), dtype=float)  # noqa: E731
+  for k in range(seq["nstep"] if upto is None else upto + 1):
+    warm = []
+    for w, d in enumerate(dl):
+      d.ctrl[:] = amps[w] if ((k + 2 * w) // seq["period"]) % 2 == 0 else -amps[w]
+      warm.append(d.qacc_warmstart.copy())
+      mujoco.mj_forward(m, d)
+    wp.copy(dd.qpos, f32([d.qpos for d in dl]))
+    wp.copy(dd.qvel, f32([d.qvel for d in dl]))
+    wp.copy(dd.ctrl, f32([d.ctrl for d in dl]))
+    wp.copy(dd.qacc_warmstart, f32(warm))
+    mjw.forward(mm, dd)
+    wp.synchronize()
+    if on_step is not None:
+      on_step(k, m, dl, mm, dd)
+    for d in dl:
+      mujoco.mj_step(m, d)
+  return xml
+
+
+def sequence_oracle(res, seqs):
+  """Certify EVERY solve of warm-started sequences (friction sign flips between consecutive solves, nv > 32)."""
+  fails = []
+  agg = {"solves": 0, "worst_kkt": 0.0, "worst_qacc": 0.0, "worst_force": 0.0, "friction_flips": 0, "niter_max": 0, "configs": []}
+  for seq in seqs:
+    cfg = {"cone": "pyramidal", "solver": "Newton", "jacobian": seq["jacobian"], "impratio": 1.0, "adhesion": False, "kkt_tol": 2e-3, "qacc_tol": 2e-2, "cost_tol": 1e-4,
+           "warmstart": True, "sequence": seq}  # fmt: skip
+    prev = {}
+    seen = set()
+
+    def on_step(k, m, dl, mm, dd, cfg=cfg, prev=prev, seen=seen, seq=seq):
+      f, st = certificate(m, dl, mm, dd, cfg)
+      stt = dd.efc.state.numpy()
+      if "state" in prev and prev["state"].shape == stt.shape:  # LINEARNEG <-> LINEARPOS flips since the previous solve
+        agg["friction_flips"] += int(np.sum(((prev["state"] == 2) & (stt == 3)) | ((prev["state"] == 3) & (stt == 2))))
+      prev["state"] = stt.copy()
+      agg["solves"] += dd.nworld
+      res.count(dd.nworld)
+      for key in ("worst_kkt", "worst_qacc", "worst_force"):
+        agg[key] = max(agg[key], st.get(key, 0.0))
+      agg["niter_max"] = max(agg["niter_max"], st.get("niter", 0))
+      for x in f:
+        if x["site"] not in seen and len(seen) < 3:
+          seen.add(x["site"])
+          x = dict(x, step=k, mujoco_niter=[int(d.solver_niter[0]) for d in dl])
+          fails.append({"sequence": seq, "step": k, "config": {a: b for a, b in cfg.items() if a != "sequence"}, "failure": x})
+
+    run_sequence(seq, on_step=on_step)
+    res.nontrivial(("sequence", seq["narm"], seq["jacobian"], seq["nworld"]))
+    agg["configs"].append([4 * seq["narm"], seq["jacobian"], seq["nworld"]])
+  res.extra["sequence_oracle"] = {k: (round(v, 6) if isinstance(v, float) else v) for k, v in agg.items()}
+  return fails, agg
+
+
 def launch_geometry_pin(res):
   """Host-side launch geometry of the solver: every slot/group count derived from nworld is >= 1 (and <= the row
   capacity) whenever there are rows - a zero-sized launch is accepted silently by Warp and skips the kernel."""
@@ -476,7 +569,7 @@ def run(res):
   quick = res.tier == "quick"
   res.rule = (
     "T-validation: random float32 inputs per translated function; port cross-check: numpy float64 port of _eval_constraint vs the compiled function; "
-    "certificate oracle: random constrained scenes x cone x solver x jacobian (forced dense/sparse, and a 70-dof model that is sparse by itself) x warmstart x batch size {1,2,7,16,33} with one state per world, every world certified; distinct = scenes with at least one constraint row; pin: solver launch-geometry helper on a grid of (nworld, njmax)"
+    "certificate oracle: random constrained scenes x cone x solver x jacobian (forced dense/sparse, and a 70-dof model that is sparse by itself) x warmstart x batch size {1,2,7,16,33} with one state per world, every world certified; distinct = scenes with at least one constraint row; pin: solver launch-geometry helper on a grid of (nworld, njmax); sequence oracle: warm-started solves on the same Data along MuJoCo trajectories of 9/12/17 coupled friction arms (nv 36/48/68, blocked-Cholesky fast path) under bang-bang motor torques, dense and sparse, every solve certified"
   )
   tm = res.extra.setdefault("timing_s", {})
   t0 = time.time()
@@ -495,6 +588,15 @@ def run(res):
   pin_bad = launch_geometry_pin(res)
   fails, agg = forward_oracle(res, (16 if quick else 160) * (2 if search else 1))
   tm["forward"] = round(time.time() - t0, 1)
+  # warm-started sequences on the same Data, nv in {36, 48, 68} (blocked-Cholesky fast path), friction sign flips
+  seqs = [{"narm": n, "jacobian": j, "nworld": w, "seed": vlib.seed() + 60 + i, "nstep": 40 if quick else 160, "period": 5}
+          for i, (n, j, w) in enumerate([(9, "dense", 1), (9, "sparse", 2), (12, "dense", 2), (17, "sparse", 1)])]  # fmt: skip
+  sfails, sagg = sequence_oracle(res, seqs)
+  tm["sequences"] = round(time.time() - t0, 1)
+  res.obligation("sequence oracle saw friction rows flip LINEARNEG <-> LINEARPOS between consecutive solves (nv > 32, dense and sparse)", sagg["friction_flips"] >= 20, f"{sagg['friction_flips']} flips in {sagg['solves']} solves")
+  for f in sfails[:4]:
+    x, q = f["failure"], f["sequence"]
+    res.violation(f"C06:sequence:{x['site']}:nv{4 * q['narm']}:{q['jacobian']}", f"warm-started solve {f['step']} of a bang-bang friction-arm sequence: {x}", f)
   need = {(n, sp, "Newton") for n in BATCHES for sp in ("sparse", "dense")}
   res.obligation("oracle reached every batch size in {1,2,7,16,33} with Newton under both Jacobian storages", need <= agg["batches"], f"missing {sorted(need - agg['batches'])}")
   res.obligation("no zero-sized launch of a solver kernel while constraint rows exist", not agg["solver_zero_launches"], f"{sorted(agg['solver_zero_launches'])[:4]}")
@@ -513,7 +615,7 @@ def run(res):
       continue
     seen.add(key)
     res.violation(key, f"after forward(): {x}", f)
-  fails = fails or pin_bad
+  fails = fails or pin_bad or sfails
   if tbad and not fails:
     res.violation("C06:translator-mismatch", "translated Gallina disagrees with compiled Warp function (model no longer tied to code)", tbad[:3], found_input=False)
   if pbad and not fails and not tbad:
@@ -525,6 +627,7 @@ def run(res):
     "convergence of Newton/CG is not proved: certified a posteriori per input (KKT residual <= 2e-3 Newton / 1e-2 CG relative to term magnitudes, or worth less than 1e-6 of the cost scale in energy (float32 resolution of the cost); qacc vs mujoco.mj_forward and Gauss cost not above the cost at MuJoCo's qacc, only on scenes where both engines built the same constraint set)",
     "elliptic contacts enter the KKT theorem as blocks whose argument assembly is the hand model Model/SolverHand.v (tied to the kernel by C24's correspondence run) and under the row-mass relation D_k*mu^2 = D_0*mu_k^2 (checked on real data by C24)",
     "M symmetric positive semidefinite and D > 0 are hypotheses of the KKT theorem",
+    "the solver's fast paths (stable-state skip, incremental Hessian, blocked Cholesky) are not modelled: they are exercised by batches, a 70-dof model and warm-started friction-flip sequences and certified per solve",
   ]
 
 
@@ -532,6 +635,18 @@ def replay(res, path):
   import json
 
   r = json.load(open(path))["replay"]
+  if isinstance(r, dict) and "sequence" in r:
+    got = {}
+
+    def on_step(k, m, dl, mm, dd):
+      if k == r["step"]:
+        got["f"], got["st"] = certificate(m, dl, mm, dd, dict(r["config"], sequence=r["sequence"]))
+        got["niter"] = (dd.solver_niter.numpy().tolist(), [int(d.solver_niter[0]) for d in dl])
+
+    run_sequence(r["sequence"], upto=r["step"], on_step=on_step)
+    print("solve", r["step"], "niter (mjw, mujoco):", got.get("niter"), "stats:", got.get("st"))
+    print("failures:", got.get("f", [])[:4])
+    return 1 if got.get("f") else 0
   if isinstance(r, dict) and "function" in r:
     from mujoco_warp._src import solver
 
